@@ -16,6 +16,12 @@ def fam_sources(fam):
     cfgs = m.group(1).split() if m else ['default']
     return src, cfgs
 
+def fam_libs(src):
+    """optional second line `// LIBS: -lfoo` : extra link flags (only libraries already installed, e.g. -lboost_serialization)"""
+    with open(src) as f:
+        f.readline(); m = re.match(r'//\s*LIBS:\s*(.*)', f.readline())
+    return m.group(1).split() if m else []
+
 def build_and_run(fam, wd, args=(), timeout=900):
     """returns list of (config, rc, stdout) ; builds in parallel"""
     src, cfgs = fam_sources(fam)
@@ -25,7 +31,7 @@ def build_and_run(fam, wd, args=(), timeout=900):
     for c in cfgs:
         exe = os.path.join(bdir, fam + '_' + c)
         std = 'c++20' if 'puml' in fam or 'cxx20' in c else 'c++17'
-        cmd = ['g++', '-std=' + std, '-O0', '-w', '-I', os.path.join(REPO, 'include'), '-I', RDIR, '-DCFG_' + c + '=1', '-DCFG_NAME="' + c + '"', src, '-o', exe]
+        cmd = ['g++', '-std=' + std, '-O0', '-w', '-I', os.path.join(REPO, 'include'), '-I', RDIR, '-DCFG_' + c + '=1', '-DCFG_NAME="' + c + '"', src, '-o', exe] + fam_libs(src)
         procs.append((c, exe, subprocess.Popen(cmd, stdout=subprocess.PIPE, stderr=subprocess.STDOUT)))
     out = []
     for c, exe, p in procs:
